@@ -5,6 +5,8 @@
 -/
 import Varlink.Client
 import VarlinkProofs.Lemmas.Basic
+import Varlink.Extracted.Code
+import Varlink.ExpectedCode
 namespace Varlink.C12
 open Varlink
 
@@ -147,5 +149,11 @@ example : ¬ WellFormedErrorName (str "org.varlink.service.Err") := by
   have := (replyError_accepts_iff {} false (str "org.varlink.service.Err") .absent).mpr h
   revert this; decide
 example : (Call.step {} false (.replyError (str "Err") .absent)).2.2 = .refusedName := by decide
+
+/-- **Tie to the source**: the declarations of /repo that this property's model transliterates
+    (`Extracted.codeNames_C12`) have, in the current working tree, exactly the fingerprints of the code the
+    model was validated against. Any change to them breaks this obligation; the check then searches the
+    correspondence streams for an input on which the changed code violates the property. -/
+theorem modelled_code_unchanged : Varlink.Extracted.code_C12 = Varlink.ExpectedCode.code_C12 := by decide
 
 end Varlink.C12
